@@ -502,8 +502,9 @@ func poolRunMain(args []string) {
 	fs := flag.NewFlagSet("poolrun", flag.ExitOnError)
 	in := fs.String("plans", "", "fault plans exported by TLC (ndjson)")
 	out := fs.String("out", "", "trace file (ndjson)")
-	reps := fs.Int("runs", 10, "repetitions per plan")
-	sweep := fs.Bool("sweep", false, "cancel plans: sweep the cancel position over every event position")
+	reps1 := fs.Int("runs", 10, "repetitions per one-pool plan")
+	reps2 := fs.Int("runs2", 2, "repetitions per plan with several pools")
+	sweep := fs.Int("sweep", 0, "one-pool cancel plans: runs per cancel position, swept over every event position (0: random positions)")
 	wd := fs.Int("watchdog-ms", 3000, "watchdog (a hang is confirmed twice)")
 	fs.Parse(args)
 	plans := prDecodePlans(*in)
@@ -532,16 +533,20 @@ func poolRunMain(args []string) {
 			}
 		}
 		rng := rand.New(rand.NewSource(seed*31 + int64(pl.ID)))
+		reps := reps1
+		if len(pl.Pools) > 1 {
+			reps = reps2
+		}
 		switch {
 		case !pl.Cancel:
 			for k := 0; k < *reps; k++ {
 				one(k, -1)
 			}
-		case *sweep:
-			one(0, -1) // measure
+		case *sweep > 0 && len(pl.Pools) == 1:
+			one(0, -1) // measure the length of a run
 			for pos := 0; pos <= maxEv+1; pos++ {
-				for k := 0; k < *reps; k++ {
-					one(1+pos*(*reps)+k, pos)
+				for k := 0; k < *sweep; k++ {
+					one(1+pos*(*sweep)+k, pos)
 				}
 			}
 		default:
